@@ -86,7 +86,7 @@ def partition_item(item):
         Ls = [lay.Layout('x', list(nprocs), list(dims_order), eta, list(rk)) for rk in ranks]
         return ns, Ls
 
-    for ctx, (kind, val) in symx.explore(body, timeout_ms=30000):
+    for ctx, (kind, val) in symx.explore(body, timeout_ms=120000):
         if kind != 'ok':
             res['obligations'] += 1
             r = ctx.check()
@@ -444,7 +444,7 @@ def main():
     run.functions = H.src_info(real.Layout.__init__, real.LayoutHandler.__init__, G.__init__, G.getCoords, G.getEta,
                                G.getCoordVals, G.getGlobalIdxVals, G.getGlobalIndices)
     quick = run.tier == 'quick'
-    P = 8 if quick else 32
+    P = 8 if quick else 24
     items = []
     for p in range(1, P + 1):
         items.append(((p,), (0,), None))
